@@ -389,6 +389,115 @@ def validation(chk, thorough):
     core.reset_world()
 
 
+def derived(chk, thorough):
+    """Derived.tla: the discrete / rational part of the derived row columns (C05 itself is not applicable): spin-drift case
+    split, rational columns on a level sight line, adjustments at the muzzle.  Bound to create_trajectory_row, to
+    TrajectoryCalc.spin_drift / calc_stability_coefficient after _init_trajectory, and to whole fire() calls."""
+    from fractions import Fraction as F
+    m = impl.pb()
+    U = m.Unit
+    from py_ballisticcalc.trajectory_calc import _trajectory_calc as T
+    d = dict(Twists="{-2, -1, 0, 1, 2}" if thorough else "{-2, 0, 1}", Weights="{2, 100}", Coords="{-1, 0, 1, 2}" if thorough else "{-1, 0, 2}",
+             Speeds="{1, 2}", Times="{0, 1}")
+    cfg, defs = core.consts(d)
+    chk.tlc(core.run_tlc("Derived", cfg + "SPECIFICATION Spec\nINVARIANT D_DriftIffAllGiven\nINVARIANT D_DriftSignedByTwist\n"
+                         "INVARIANT D_LeftMirrorsRight\nINVARIANT D_NoDriftAtMuzzleTime\nINVARIANT D_MuzzleAdjustmentsZero\n"
+                         "INVARIANT D_WindageIsLateralPlusDrift\nINVARIANT D_EnergyMonotone\n", defs=defs), "Derived")
+    gen = core.run_tlc("Gen_Derived", cfg + "INIT Init\nNEXT Next\nINVARIANT Emit\n", defs=defs, workers=1, tags=["CASE"])
+    chk.tlc(gen, "Gen_Derived")
+    cases = gen.out("CASE")
+    calcs = {}
+
+    def solver(tw, hl, hd, w):
+        key = (tw, hl, hd, w)
+        if key not in calcs:
+            core.reset_world()
+            dm = m.DragModel(0.3, m.TableG7, U.Grain(w), U.Inch(1) if hd else 0, U.Inch(1) if hl else 0)
+            shot = m.Shot(weapon=m.Weapon(U.Inch(0), twist=U.Inch(tw)), ammo=m.Ammo(dm, U.FPS(2800)),
+                          atmo=m.Atmo(U.Foot(0), U.InHg(29.92), U.Fahrenheit(59), 0.0))
+            c = m.Calculator()
+            c._calc._init_trajectory(shot)
+            calcs[key] = c._calc
+        return calcs[key]
+
+    def near(a, b, rel=1e-9):
+        return abs(a - b) <= rel * max(abs(a), abs(b)) + 1e-15
+
+    for c in cases:
+        want = c["want"]
+        tc = solver(c["tw"], c["hasLen"], c["hasDia"], c["w"])
+        k = {"module": "Derived", "tw": c["tw"], "hasLen": c["hasLen"], "hasDia": c["hasDia"]}
+        chk.count(1, ("derived", c["tw"], c["hasLen"], c["hasDia"], c["w"], c["x"], c["y"], c["z"], c["v"], c["snd"], c["t"], c["lookNonZero"]))
+        chk.stratum("derived_stable" if want["stable"] else "derived_no_drift")
+        sg = F(want["sg"][0], want["sg"][1])
+        if not near(tc.stability_coefficient, float(sg)):
+            chk.violation("X.Derived.Stability", k, {"case": c, "got": tc.stability_coefficient, "want": float(sg)})
+        drift = F(want["drift"][0], want["drift"][1])
+        got_drift = tc.spin_drift(float(c["t"]))
+        if not near(got_drift, float(drift)) or (drift == 0 and got_drift != 0):
+            chk.violation("X.Derived.SpinDrift", k, {"case": c, "got": got_drift, "want": float(drift)})
+        look = 0.25 if c["lookNonZero"] else 0.0
+        row = T.create_trajectory_row(float(c["t"]), m.Vector(float(c["x"]), float(c["y"]), float(c["z"])), m.Vector(float(c["v"]), 0.0, 0.0),
+                                      float(c["v"]), float(c["snd"]), got_drift, look, 1.0, 0.0, float(c["w"]), 8)
+        ft = lambda q_: q_ >> U.Foot
+        wind = F(want["windage"][0], want["windage"][1])
+        checks = [("distance", ft(row.distance), float(want["distance"])), ("height", ft(row.height), float(want["height"])),
+                  ("windage", ft(row.windage), float(wind)), ("mach", row.mach, c["v"] / c["snd"]),
+                  ("energy", row.energy >> U.FootPound, float(F(want["energy"][0], want["energy"][1]))),
+                  ("ogw", row.ogw >> U.Pound, float(F(want["ogw"]["n"], want["ogw"]["d"] * 10 ** want["ogw"]["e10"]))),
+                  ("angle", row.angle >> U.Radian, 0.0)]
+        if not c["lookNonZero"]:
+            chk.stratum("derived_level")
+            checks += [("target_drop", ft(row.target_drop), float(want["targetDrop"])), ("look_distance", ft(row.look_distance), float(want["lookDistance"]))]
+        for name, got, w_ in checks:
+            if not near(got, w_):
+                chk.violation("X.Derived.Column." + name, k, {"case": c, "got": got, "want": w_})
+        da, wa = row.drop_adj >> U.Radian, row.windage_adj >> U.Radian
+        dj, wj = want["dropAdj"], want["windAdj"]
+        if dj["zero"]:
+            chk.stratum("derived_muzzle")
+            if da != 0 or wa != 0:
+                chk.violation("X.Derived.MuzzleAdjustmentNotZero", k, {"case": c, "drop_adj": da, "windage_adj": wa})
+        else:
+            if dj["minusLook"] and da != -look:
+                chk.violation("X.Derived.DropAdjOnHorizontal", k, {"case": c, "got": da, "want": -look})
+            if not c["lookNonZero"]:
+                sgn = {"zero": 0, "pos": 1, "neg": -1}[dj["cls"]]
+                if (da > 0) - (da < 0) != sgn or (dj["quarter"] and not near(abs(da), math.pi / 4, 1e-15)):
+                    chk.violation("X.Derived.DropAdjClass", k, {"case": c, "got": da})
+            sgn = {"zero": 0, "pos": 1, "neg": -1}[wj["cls"]]
+            if (wa > 0) - (wa < 0) != sgn or (wj["quarter"] and not near(abs(wa), math.pi / 4, 1e-12)) or (wj["zero"] and wa != 0):
+                chk.violation("X.Derived.WindageAdjClass", k, {"case": c, "got": wa})
+    chk.traces += len(cases)
+    # whole fire() calls: the same split observed at the API (no wind, so windage is the spin drift alone)
+    core.reset_world()
+    res = {}
+    for tw in (12, -12, 0):
+        for hl, hd in ((True, True), (False, True), (True, False)):
+            dm = m.DragModel(0.223, m.TableG7, U.Grain(168), U.Inch(0.308) if hd else 0, U.Inch(1.282) if hl else 0)
+            for look in (0.0, 5.0):
+                shot = m.Shot(weapon=m.Weapon(U.Inch(2), twist=U.Inch(tw)), ammo=m.Ammo(dm, U.FPS(2750)), look_angle=U.Degree(look))
+                rows = m.Calculator().fire(shot, U.Yard(300), U.Yard(100)).trajectory
+                res[(tw, hl, hd, look)] = [r.windage.raw_value for r in rows]
+                stable = tw != 0 and hl and hd
+                k = {"module": "Derived", "tw": tw, "hasLen": hl, "hasDia": hd, "fire": True}
+                chk.count(1, ("derived_fire", tw, hl, hd, look))
+                chk.stratum("derived_fire_stable" if stable else "derived_fire_no_drift")
+                r0 = rows[0]
+                if (r0.drop_adj >> U.Radian) != 0 or (r0.windage_adj >> U.Radian) != 0 or r0.windage.raw_value != 0:
+                    chk.violation("X.Derived.MuzzleAdjustmentNotZero", k, {"look_deg": look, "drop_adj": r0.drop_adj >> U.Radian, "windage_adj": r0.windage_adj >> U.Radian})
+                for r in rows[1:]:
+                    wv, wadj = r.windage.raw_value, r.windage_adj >> U.Radian
+                    sgn = (1 if tw > 0 else -1) if stable else 0
+                    if (wv > 0) - (wv < 0) != sgn or (wadj > 0) - (wadj < 0) != sgn:
+                        chk.violation("X.Derived.FireDriftSign", k, {"look_deg": look, "distance_ft": r.distance >> U.Foot, "windage_in": wv, "windage_adj": wadj})
+                        break
+    for (tw, hl, hd, look), w_ in res.items():
+        if tw > 0 and [-x_ for x_ in res[(-tw, hl, hd, look)]] != w_:
+            chk.violation("X.Derived.LeftTwistNotMirror", {"module": "Derived", "tw": tw, "hasLen": hl, "hasDia": hd, "fire": True}, {"look_deg": look, "right": w_, "left": res[(-tw, hl, hd, look)]})
+    core.reset_world()
+
+
 def run(chk: core.Check, replay=None) -> None:
     core.use_repo(hooks=False)
     core.reset_world()
@@ -399,9 +508,10 @@ def run(chk: core.Check, replay=None) -> None:
     vectors(chk, thorough)
     output(chk, thorough)
     validation(chk, thorough)
-    chk.require_strata(["validation_BCPoint", "validation_DragModel", "validation_Sight", "validation_MultiBC", "validation_rejected", "validation_accepted", "output", "output_Assign", "output_LoadPreset", "atmo_SetHumidity", "atmo_Query", "atmo_rejected", "results_flag_names", "results_zeros", "results_no_extra",
+    derived(chk, thorough)
+    chk.require_strata(["derived_stable", "derived_no_drift", "derived_level", "derived_muzzle", "derived_fire_stable", "derived_fire_no_drift", "validation_BCPoint", "validation_DragModel", "validation_Sight", "validation_MultiBC", "validation_rejected", "validation_accepted", "output", "output_Assign", "output_LoadPreset", "atmo_SetHumidity", "atmo_Query", "atmo_rejected", "results_flag_names", "results_zeros", "results_no_extra",
                         "results_no_zero_rows", "cfgload_ValueError", "cfgload_searched", "cfgload_explicit-file",
                         "cfgload_arguments-applied", "vectors"])
-    chk.rule.append("extra specification modules beyond the listed properties (Atmo, Results, ConfigLoad, VectorAlg, Output, Validation), each with TLC design "
+    chk.rule.append("extra specification modules beyond the listed properties (Atmo, Results, ConfigLoad, VectorAlg, Output, Validation, Derived), each with TLC design "
                     "check and exhaustive / simulated replay into the real code")
-    chk.sample({"modules": ["Atmo", "Results", "ConfigLoad", "VectorAlg", "Output", "Validation"]})
+    chk.sample({"modules": ["Atmo", "Results", "ConfigLoad", "VectorAlg", "Output", "Validation", "Derived"]})
